@@ -64,6 +64,7 @@ type c01Hist struct {
 	next   float64
 	step   int
 	keep   []any // caller-owned slices/maps handed to the library (kept alive, never mutated)
+	redo   []c01Redo
 }
 
 // ---------------------------------------------------------------------------------------------
@@ -564,6 +565,25 @@ type c01Result struct {
 	mesh modeling.Mesh
 	req  string // model operation class + parameters ("" = no shape line)
 	args []int  // pool positions of the argument meshes
+	redo func() modeling.Mesh
+}
+
+type c01Redo struct {
+	idx int
+	f   func() modeling.Mesh
+}
+
+// value-level correspondence of Append: both arguments' values go to the driver, which runs the heap model's
+// appendCopy on a heap holding them and reads the result back with `obs`
+func (h *c01Hist) appendChecked(a, b modeling.Mesh) modeling.Mesh {
+	ca, cb := h.canon(a), h.canon(b)
+	var out modeling.Mesh
+	ans := Guard(func() string { out = a.Append(b); return h.canon(out) })
+	h.c.Emit("c01.append", ca+" | "+cb, ans)
+	if ans == "panic" {
+		panic("append rejected")
+	}
+	return out
 }
 
 func hasPos(m modeling.Mesh) bool { return m.HasFloat3Attribute(modeling.PositionAttribute) }
@@ -604,7 +624,10 @@ func (h *c01Hist) apply(name string) (res []c01Result, ok bool) {
 		}
 	}()
 	rng := h.c.Rng
-	one := func(m modeling.Mesh, req string, args ...int) []c01Result { return []c01Result{{m, req, args}} }
+	one := func(m modeling.Mesh, req string, args ...int) []c01Result { return []c01Result{{m, req, args, nil}} }
+	re := func(f func() modeling.Mesh, req string, args ...int) []c01Result {
+		return []c01Result{{f(), req, args, f}}
+	}
 	switch name {
 	case "append":
 		a := h.pick()
@@ -612,7 +635,8 @@ func (h *c01Hist) apply(name string) (res []c01Result, ok bool) {
 		if rng.Intn(12) == 0 {
 			b = h.pick() // possibly a topology mismatch: must panic without touching anything
 		}
-		return one(h.pool[a].Append(h.pool[b]), "append", a, b), true
+		ma, mb := h.pool[a], h.pool[b]
+		return []c01Result{{h.appendChecked(ma, mb), "append", []int{a, b}, func() modeling.Mesh { return ma.Append(mb) }}}, true
 	case "setindices":
 		a := h.pick()
 		m := h.pool[a]
@@ -624,7 +648,7 @@ func (h *c01Hist) apply(name string) (res []c01Result, ok bool) {
 			return nil, true
 		}
 		m := h.pool[a]
-		return one(meshops.FlipTriangleWinding(m), fmt.Sprintf("setindices %d 0", m.Indices().Len()), a), true
+		return re(func() modeling.Mesh { return meshops.FlipTriangleWinding(m) }, fmt.Sprintf("setindices %d 0", m.Indices().Len()), a), true
 	case "setmaterials":
 		a := h.pick()
 		ms := h.materialsFor(h.pool[a].Indices().Len() / c01IndexSize(h.pool[a].Topology()))
@@ -637,7 +661,8 @@ func (h *c01Hist) apply(name string) (res []c01Result, ok bool) {
 		return one(h.pool[a].SetMaterials(h.pool[b].Materials()), "sharematerials", a, b), true
 	case "topointcloud":
 		a := h.pick()
-		return one(h.pool[a].ToPointCloud(), "topointcloud", a), true
+		m := h.pool[a]
+		return re(func() modeling.Mesh { return m.ToPointCloud() }, "topointcloud", a), true
 	case "clearattrs":
 		a := h.pick()
 		return one(h.pool[a].ClearAttributeData(), "clearattrs", a), true
@@ -778,18 +803,18 @@ func (h *c01Hist) apply(name string) (res []c01Result, ok bool) {
 			a = h.pick() // possibly no position: must panic without touching anything
 		}
 		m := h.pool[a]
-		var out modeling.Mesh
-		switch name {
-		case "translate":
-			out = m.Translate(vector3.New(1., 2., 3.))
-		case "scale":
-			out = m.Scale(vector3.New(2., 2., 0.5))
-		case "rotate":
-			out = m.Rotate(quaternion.FromTheta(1.25, vector3.Up[float64]()))
-		default:
-			out = m.ApplyTRS(trs.New(vector3.New(1., 0., 0.), quaternion.FromTheta(0.5, vector3.Right[float64]()), vector3.New(1., 2., 3.)))
+		f := func() modeling.Mesh {
+			switch name {
+			case "translate":
+				return m.Translate(vector3.New(1., 2., 3.))
+			case "scale":
+				return m.Scale(vector3.New(2., 2., 0.5))
+			case "rotate":
+				return m.Rotate(quaternion.FromTheta(1.25, vector3.Up[float64]()))
+			}
+			return m.ApplyTRS(trs.New(vector3.New(1., 0., 0.), quaternion.FromTheta(0.5, vector3.Right[float64]()), vector3.New(1., 2., 3.)))
 		}
-		return one(out, fmt.Sprintf("setattr 2 %s %d 0", modeling.PositionAttribute, c01AttrLen(m)), a), true
+		return re(f, fmt.Sprintf("setattr 2 %s %d 0", modeling.PositionAttribute, c01AttrLen(m)), a), true
 	case "copyattr":
 		a := h.pick()
 		// keep the pool well-formed (one attribute length per mesh): the source has the receiver's length
@@ -833,16 +858,22 @@ func (h *c01Hist) apply(name string) (res []c01Result, ok bool) {
 		if a < 0 {
 			return nil, true
 		}
-		out := h.pool[a].WeldByFloat3Attribute(modeling.PositionAttribute, 2)
-		return one(out, c01RebuildParams(out, 1), a), true
+		m := h.pool[a]
+		f := func() modeling.Mesh { return m.WeldByFloat3Attribute(modeling.PositionAttribute, 2) }
+		out := f()
+		return []c01Result{{out, c01RebuildParams(out, 1), []int{a}, f}}, true
 	case "unweld":
 		a := h.pick()
-		out := meshops.Unweld(h.pool[a])
-		return one(out, c01RebuildParams(out, 0), a), true
+		m := h.pool[a]
+		f := func() modeling.Mesh { return meshops.Unweld(m) }
+		out := f()
+		return []c01Result{{out, c01RebuildParams(out, 0), []int{a}, f}}, true
 	case "removeunreferenced":
 		a := h.pick()
-		out := h.pool[a].Transform(meshops.RemovedUnreferencedVerticesTransformer{})
-		return one(out, c01RebuildParams(out, 0), a), true
+		m := h.pool[a]
+		f := func() modeling.Mesh { return m.Transform(meshops.RemovedUnreferencedVerticesTransformer{}) }
+		out := f()
+		return []c01Result{{out, c01RebuildParams(out, 0), []int{a}, f}}, true
 	case "filter":
 		a := h.pick()
 		m := h.pool[a]
@@ -894,7 +925,7 @@ func (h *c01Hist) apply(name string) (res []c01Result, ok bool) {
 			return one(parts[0], "identity", a), true
 		}
 		for _, p := range parts {
-			res = append(res, c01Result{p, "", []int{a}}) // fresh arrays + a fresh one-element material slice: value level only
+			res = append(res, c01Result{p, "", []int{a}, nil}) // fresh arrays + a fresh one-element material slice: value level only
 		}
 		return res, true
 	case "slice":
@@ -905,23 +936,23 @@ func (h *c01Hist) apply(name string) (res []c01Result, ok bool) {
 		m := h.pool[a]
 		c := m.BoundingBox(modeling.PositionAttribute).Center()
 		up, down := meshops.SliceByPlaneWithAttribute(m, geometry.NewPlaneFromPoints(c, c.Add(vector3.Right[float64]()), c.Add(vector3.Forward[float64]())), modeling.PositionAttribute)
-		return []c01Result{{up, c01RebuildParams(up, 0), []int{a}}, {down, c01RebuildParams(down, 0), []int{a}}}, true
+		return []c01Result{{up, c01RebuildParams(up, 0), []int{a}, nil}, {down, c01RebuildParams(down, 0), []int{a}, nil}}, true
 	case "flatnormals", "smoothnormals", "smoothnormals.implicitweld":
 		a := h.pickWhere(func(m modeling.Mesh) bool { return isTri(m) && hasPos(m) })
 		if a < 0 {
 			return nil, true
 		}
 		m := h.pool[a]
-		var out modeling.Mesh
-		switch name {
-		case "flatnormals":
-			out = m.Transform(meshops.FlatNormalsTransformer{})
-		case "smoothnormals":
-			out = meshops.SmoothNormals(m)
-		default:
-			out = meshops.SmoothNormalsImplicitWeld(m, 0.01)
+		f := func() modeling.Mesh {
+			switch name {
+			case "flatnormals":
+				return m.Transform(meshops.FlatNormalsTransformer{})
+			case "smoothnormals":
+				return meshops.SmoothNormals(m)
+			}
+			return meshops.SmoothNormalsImplicitWeld(m, 0.01)
 		}
-		return one(out, fmt.Sprintf("setattr 2 %s %d 0", modeling.NormalAttribute, c01AttrLen(m)), a), true
+		return re(f, fmt.Sprintf("setattr 2 %s %d 0", modeling.NormalAttribute, c01AttrLen(m)), a), true
 	case "laplacian", "center", "normalize", "meshops.translate", "meshops.scale", "meshops.rotate", "vertexcolorspace":
 		a := h.pickWhere(func(m modeling.Mesh) bool { return len(m.Float3Attributes()) > 0 })
 		if a < 0 {
@@ -1054,9 +1085,21 @@ func (h *c01Hist) doOp(name string) {
 			h.c.Emit("c01.shape", b.String(), h.resultShape(r.mesh))
 			h.c.Note("shape." + strings.SplitN(r.req, " ", 2)[0])
 		}
-		h.enter(r.mesh)
+		i := h.enter(r.mesh)
+		if r.redo != nil {
+			h.redo = append(h.redo, c01Redo{i, r.redo})
+		}
 	}
 	h.checkAll()
+}
+
+// derivations commute: deriving the same thing again, after everything else that happened in the history,
+// gives the value the first derivation gave
+func (h *c01Hist) checkRederive() {
+	for _, r := range h.redo {
+		now := Guard(func() string { return c01Digest(h.canon(r.f())) })
+		h.c.Emit("c01.holds.rederive", fmt.Sprintf("%d %d %s %s", h.id, r.idx, h.digest[r.idx], now), "true")
+	}
 }
 
 // the scenario of the repaired defect and its relatives: a chain of appends (which may leave spare capacity),
@@ -1071,7 +1114,7 @@ func (h *c01Hist) scriptedBranch() {
 		h.step++
 		func() {
 			defer func() { recover() }()
-			base = h.enter(h.pool[base].Append(h.pool[o]))
+			base = h.enter(h.appendChecked(h.pool[base], h.pool[o]))
 		}()
 		h.checkAll()
 	}
@@ -1080,7 +1123,11 @@ func (h *c01Hist) scriptedBranch() {
 		h.step++
 		func() {
 			defer func() { recover() }()
-			r := h.pool[base].Append(h.pool[o])
+			mb, mo := h.pool[base], h.pool[o]
+			r := h.appendChecked(mb, mo)
+			defer func() {
+				h.redo = append(h.redo, c01Redo{len(h.pool) - 1, func() modeling.Mesh { return mb.Append(mo) }})
+			}()
 			var b strings.Builder
 			fmt.Fprintf(&b, "append ARGS 2 %s %s", h.argMesh(h.pool[base]), h.argMesh(h.pool[o]))
 			h.c.Emit("c01.shape", b.String(), h.resultShape(r))
@@ -1115,6 +1162,7 @@ func runC01(c *Ctx) {
 			}
 			h.doOp(c01OpNames[c.Rng.Intn(len(c01OpNames))])
 		}
+		h.checkRederive()
 		full := c.Tier != "thorough" || id%8 == 0
 		if full {
 			h.checkFull()
